@@ -80,6 +80,11 @@ func c02GenLine(r *rng, names []string) string {
 
 		return pick(r, []string{"0.0.0.0", "::1", "1.2.3.4"}) + pick(r, []string{" ", "\t", "  "}) + strings.Join(hs, " ") + pick(r, []string{"", " # note", " #x"})
 	case 3:
+		if r.chance(1, 3) {
+			// (used with its neighbours) a rule, its $badfilter twin and a survivor on the same name
+			return pick(r, []string{"||" + d + "^", "||" + d + "^$badfilter", "||" + d + "^$important", "@@||" + d + "^", "||" + d + "^$important,badfilter"})
+		}
+
 		return d // bare domain
 	case 4:
 		return pick(r, []string{"# comment", "! comment", "", d + "##.banner", "##.ad"})
@@ -162,6 +167,17 @@ func c02Gen(r *rng, n int, w *bufio.Writer) {
 			all = append(all, t)
 			l := r.n(nLists)
 			bodies[l] = append(bodies[l], t)
+		}
+		if r.chance(1, 4) {
+			// a rule, its $badfilter twin, and AFTER them (in one list, so in match order) the only survivor
+			d := pick(r, focus)
+			l := r.n(nLists)
+			surv := pick(r, []string{"||" + d + "^$important", "@@||" + d + "^", "||" + d + "^$dnstype=~TXT"})
+			for _, t := range []string{"||" + d + "^", "||" + d + "^$badfilter", surv} {
+				all = append(all, t)
+				bodies[l] = append(bodies[l], t)
+			}
+			used = append(used, d)
 		}
 		var lists []filterlist.RuleList
 		var note []string
